@@ -767,19 +767,19 @@ fn run_ops(cs: u64, nparts: usize, ops: &[Op], policy: Policy) -> (Option<Outcom
     (res, stats)
 }
 
-fn sigs_of(res: &Option<Outcome>, stats: &RunStats) -> Vec<(String, String)> {
-    let mut v: Vec<(String, String)> = Vec::new();
+fn sigs_of(res: &Option<Outcome>, stats: &RunStats) -> Vec<(String, String, usize)> {
+    let mut v: Vec<(String, String, usize)> = Vec::new();
     let panics = dds_panics(stats);
     let op = res.as_ref().and_then(|o| o.panic_op.clone()).unwrap_or_else(|| "idle".into());
     for p in &panics {
-        v.push((panic_sig(p, &op), format!("DDS {:?} task panicked at {} during {}: {}", p.task, p.location, op, p.msg)));
+        v.push((panic_sig(p, &op), format!("DDS {:?} task panicked at {} during {}: {}", p.task, p.location, op, p.msg), res.as_ref().and_then(|o| o.aborted_at).unwrap_or(usize::MAX)));
     }
     if let Some(o) = res {
         for f in &o.findings {
             if f.sig.starts_with("hang|") && !panics.is_empty() {
                 continue;
             }
-            v.push((f.sig.clone(), f.what.clone()));
+            v.push((f.sig.clone(), f.what.clone(), f.step));
         }
     }
     v
@@ -789,7 +789,7 @@ fn shrink(cs: u64, nparts: usize, policy: Policy, ops: &[Op], sig: &str) -> Vec<
     let mut budget = 250usize;
     let test = |cand: &[Op]| -> bool {
         let (r, s) = run_ops(cs, nparts, cand, policy);
-        sigs_of(&r, &s).iter().any(|(x, _)| x == sig)
+        sigs_of(&r, &s).iter().any(|(x, _, _)| x == sig)
     };
     ddmin(ops.to_vec(), test, &mut budget)
 }
@@ -826,7 +826,7 @@ pub fn run(shard: &Shard) -> Report {
             }
         }
         let mut done: Vec<String> = Vec::new();
-        for (sig, what) in &found {
+        for (sig, what, at_step) in &found {
             if done.contains(sig) {
                 continue;
             }
@@ -835,10 +835,11 @@ pub fn run(shard: &Shard) -> Report {
             let mut r = replay.clone().set("violation", sig.clone());
             let mut what = what.clone();
             if seen < 1 || shard.replay.is_some() {
-                let min = shrink(cs, nparts, policy, &ops, sig);
+                let cut = (*at_step).min(ops.len() - 1);
+                let min = shrink(cs, nparts, policy, &ops[..=cut], sig);
                 // the witness text of the minimal run
                 let (r2, s2) = run_ops(cs, nparts, &min, policy);
-                if let Some((_, w2)) = sigs_of(&r2, &s2).into_iter().find(|(x, _)| x == sig) {
+                if let Some((_, w2, _)) = sigs_of(&r2, &s2).into_iter().find(|(x, _, _)| x == sig) {
                     what = w2;
                 }
                 what = format!("{what}; minimal history: {}", history_json(&min).to_string());
